@@ -146,6 +146,9 @@ func (w *diffWorker) program(s0 ref.State, base *mem.Image, stale bool, g *vf.Rn
 	mp.NoRdSet, ma.NoRdSet = true, true
 	w.rig.loadPrim(s0, stale, g)
 	w.rig.loadAltFromPrim()
+	if g.Bool() {
+		w.rig.observeFromHooks()
+	}
 	sawE := map[bool]bool{}
 	for step := 0; step < maxSteps; step++ {
 		pre := absPrim(&w.rig.prim)
